@@ -527,31 +527,62 @@ def check_validations(p, r):
             r.ok('C20.R4', key_c, 'capacity must be a positive int', src('edges/edge.py'), gs[0].lineno)
         else:
             r.fail('C20.R4', key_c, 'validation removed: capacity must be a positive int - the invalid configuration is silently simulated', src('edges/edge.py'), init_e.node.lineno)
-    need('edges/buffer.py', 'Buffer', '__init__', 'mode', lambda t: 'self.modenotin' in t and 'FIFO' in t and 'LIFO' in t, 'mode must be FIFO or LIFO')
-    import re as _re
-    nonneg = lambda t: bool(_re.fullmatch(r'assert:(\w+)>=0|assert:0<=(\w+)|(\w+)<0|0>(\w+)', t))    # noqa: E731
-    need('edges/edge.py', 'Edge', 'get_delay', 'delay>=0', nonneg, 'drawn delay must be non-negative')
-    need('nodes/node.py', 'Node', 'get_delay', 'delay>=0', nonneg, 'drawn delay must be non-negative')
-    need('nodes/source.py', 'Source', '__init__', 'nonblocking-zero-interarrival',
-         lambda t: 'inter_arrival_time==0' in t and 'notself.blocking' in t and 'or' not in t.replace('inter_arrival_time', ''),
-         'a non-blocking source needs a non-zero inter-arrival time')
-    need('nodes/node.py', 'Node', '__init__', 'setup-time-type', lambda t: False, '') if False else None
+    from .common import abstract_rejects
+
+    def decide(cls_rel, cls, meth, label, bad, good, what):
+        """the validation is judged by what it does to representative configurations, not by how it is spelled: every `bad` configuration is
+        rejected (raise / failed assert that depends on the validated quantity), every `good` one passes"""
+        ci = p.cls(cls_rel, cls)
+        fi = ci.methods.get(meth)
+        key = f'{cls_rel}::{cls}.{meth}::validates:{label}'
+        if fi is None:
+            r.fail('C20.R4', key, f'{meth} missing', src(cls_rel), ci.node.lineno)
+            return
+        r.analysed_functions.add(fi.key)
+        missed = [e for e in bad if not abstract_rejects(p, ci, fi, e, must=False)]
+        refused = [e for e in good if abstract_rejects(p, ci, fi, e, must=True)]
+        if not missed and not refused:
+            r.ok('C20.R4', key, f'{what} ({len(bad)} invalid / {len(good)} valid representative configurations evaluated)', src(cls_rel), fi.node.lineno)
+        elif missed:
+            shown = {k: v for k, v in missed[0].items() if not k.startswith('self.') or k[5:] not in missed[0]}
+            r.fail('C20.R4', key, f'validation removed or weakened: {what} - the invalid configuration {shown} is silently simulated', src(cls_rel), fi.node.lineno)
+        else:
+            shown = {k: v for k, v in refused[0].items() if not k.startswith('self.') or k[5:] not in refused[0]}
+            r.fail('C20.R4', key, f'{what}: the valid configuration {shown} is rejected', src(cls_rel), fi.node.lineno)
+
+    def both(**kw):
+        d = {}
+        for k, v in kw.items():
+            d[k] = v
+            d['self.' + k] = v
+        return d
+    decide('edges/buffer.py', 'Buffer', '__init__', 'mode', [both(mode=m) for m in ('fifo', 'RANDOM', 'FILO', '', None, 3)], [both(mode='FIFO'), both(mode='LIFO')],
+           'mode must be FIFO or LIFO')
+    for rel, cls in (('edges/edge.py', 'Edge'), ('nodes/node.py', 'Node')):
+        decide(rel, cls, 'get_delay', 'delay>=0', [{'delay': -1}, {'delay': -0.5}], [{'delay': 0}, {'delay': 0.0}, {'delay': 3}, {'delay': 2.5}],
+               'drawn delay must be non-negative')
+    decide('nodes/source.py', 'Source', '__init__', 'nonblocking-zero-interarrival',
+           [both(inter_arrival_time=0, blocking=False), both(inter_arrival_time=0.0, blocking=False)],
+           [both(inter_arrival_time=0, blocking=True), both(inter_arrival_time=1, blocking=False), both(inter_arrival_time=0.5, blocking=False),
+            both(inter_arrival_time=2.5, blocking=True)],
+           'a non-blocking source needs a non-zero inter-arrival time')
+    E = ['e0', 'e1', 'e2']
     for cls_rel, cls, ins, outs in (('nodes/source.py', 'Source', 'none', 'some'), ('nodes/sink.py', 'Sink', 'some', 'none'),
                                     ('nodes/machine.py', 'Machine', 'some', 'some'), ('nodes/splitter.py', 'Splitter', 'some', 'some'),
                                     ('nodes/combiner.py', 'Combiner', 'some', 'some')):
         for side, want in (('in_edges', ins), ('out_edges', outs)):
             if want == 'some':
-                need(cls_rel, cls, 'behaviour', f'has-{side}', lambda t, s_=side: t.startswith('assert:') and f'self.{s_}isnotNone' in t and f'len(self.{s_})>=1' in t,
-                     f'the node must have at least one of its {side}')
+                decide(cls_rel, cls, 'behaviour', f'has-{side}', [{f'self.{side}': None}, {f'self.{side}': []}], [{f'self.{side}': ['e0']}, {f'self.{side}': E}],
+                       f'the node must have at least one of its {side}')
             else:
-                need(cls_rel, cls, 'behaviour', f'no-{side}', lambda t, s_=side: t.startswith('assert:') and f'self.{s_}isNone' in t,
-                     f'the node must not have {side}')
+                decide(cls_rel, cls, 'behaviour', f'no-{side}', [{f'self.{side}': ['e0']}], [{f'self.{side}': None}], f'the node must not have {side}')
     for cls_rel, cls, sides in (('nodes/source.py', 'Source', ('out',)), ('nodes/machine.py', 'Machine', ('in', 'out')),
                                 ('nodes/splitter.py', 'Splitter', ('in', 'out')), ('nodes/combiner.py', 'Combiner', ('out',))):
         for sd in sides:
-            need(cls_rel, cls, 'reset', f'constant-{sd}-index',
-                 lambda t, s_=sd: t.startswith('assert:') and f'0<=self.{s_}_edge_selection<len(self.{s_}_edges)' in t,
-                 f'a constant {sd}_edge_selection must be a valid index')
+            decide(cls_rel, cls, 'reset', f'constant-{sd}-index',
+                   [{f'self.{sd}_edge_selection': i, f'self.{sd}_edges': E} for i in (-1, 3, 8)],
+                   [{f'self.{sd}_edge_selection': i, f'self.{sd}_edges': E} for i in (0, 1, 2)],
+                   f'a constant {sd}_edge_selection must be a valid index')
 
 
 # ------------------------------------------------------------------------------------------- R5
